@@ -10,7 +10,7 @@ import (
 // implementation's engine. Whole-field, bytewise matching. Data and patterns never contain 0x0a.
 
 const (
-	rxLit = iota
+	rxLit     = iota
 	rxAny     // .
 	rxAnyByte // \C
 	rxClass
